@@ -184,6 +184,8 @@ func bRun(c *bCase, pick func(n int) int) (info bInfo, viol *aViolation, hist st
 	prev := bSnapAll(e)
 	step := 0
 	last := -1
+	var deferred *aViolation
+	deferredHist := ""
 	var demSnap bSnap
 	demFirstReq := 1 << 30 // index of the first request sent after the role change had finished
 	for {
@@ -250,10 +252,17 @@ func bRun(c *bCase, pick func(n int) int) (info bInfo, viol *aViolation, hist st
 			}
 		}
 		if v := bTransition(e, prev, cur, &info); v != nil {
-			// let the other threads run to their end so that the instance can be closed, then report
-			h := e.history()
-			abandon = !bFinish(s)
-			return info, v, h, ""
+			if pc.Prop == "*" || pc.Prop == "" || strings.Contains(v.Props, pc.Prop) {
+				// let the other threads run to their end so that the instance can be closed, then report
+				h := e.history()
+				abandon = !bFinish(s)
+				return info, v, h, ""
+			}
+			// a violation of another property only: the run goes on, so that what follows from it for the property under
+			// test (e.g. the SUCCED reply of a hold that no key records) is still observed
+			if deferred == nil {
+				deferred, deferredHist = v, e.history()
+			}
 		}
 		prev = cur
 		if v := e.mon.verdict(); v != nil {
@@ -276,6 +285,9 @@ func bRun(c *bCase, pick func(n int) int) (info bInfo, viol *aViolation, hist st
 	// ---- quiescence: end-of-schedule checks, then drain from the snapshot
 	if v := bQuiescent(e, prev); v != nil {
 		return info, v, e.history(), ""
+	}
+	if deferred != nil {
+		return info, deferred, deferredHist, ""
 	}
 	e.logf("--- drain")
 	if msg := aSafe(e, func() { bDrain(e, prev) }); msg != "" {
@@ -484,6 +496,9 @@ func bTransition(e *aEnv, prev, cur bSnap, info *bInfo) *aViolation {
 			}
 		}
 	}
+	if v := bSuccedHeld(e, cur); v != nil {
+		return v
+	}
 	// STATE counters vs census
 	for di, d := range e.dbs {
 		if d == nil {
@@ -505,8 +520,52 @@ func bTransition(e *aEnv, prev, cur bSnap, info *bInfo) *aViolation {
 	return nil
 }
 
-// bQuiescent: all threads finished - no key may have an admissible request at the head of its queue.
+// bQuiescent: all threads finished - no key may have an admissible request at the head of its queue, and every LOCK of
+// the concurrent phase that was answered SUCCED holds its key (unless something sent meanwhile may have ended the hold).
 func bQuiescent(e *aEnv, cur bSnap) *aViolation {
+	if v := bSuccedHeld(e, cur); v != nil {
+		return v
+	}
+	return bQuiescentQueues(e, cur)
+}
+
+// bSuccedHeld: a LOCK of the concurrent phase that has been answered SUCCED is a holder in its key's lock table, unless a
+// request sent meanwhile may have ended or re-termed the hold (C01: a hold is outstanding from its SUCCED reply on).
+func bSuccedHeld(e *aEnv, cur bSnap) *aViolation {
+	for _, r := range e.reqs {
+		if r.Idx < bFirstReq || r.Op.K != "lock" || r.Terminal < 0 || r.Replies[r.Terminal].Result != rSUCCED {
+			continue
+		}
+		if r.Op.E == 0 || r.Op.EF&efUNLIMITED == 0 && r.Op.EF&efMINUTE == 0 && r.Op.E < 20 || r.Op.TF&0x1000 != 0 || r.Op.F&(fSHOW|fCONCHECK) != 0 || r.Expried > 0 {
+			continue // holds nothing by design, may have expired, ack machinery, or does not take a hold
+		}
+		excused := false
+		for _, u := range e.reqs {
+			if u.Idx >= bFirstReq && u.Idx != r.Idx && u.Op.Db == r.Op.Db && u.Key == r.Key &&
+				(u.Op.K == "unlock" && (u.LockId == r.LockId || u.Op.F&ufFIRST != 0) || u.Op.K == "lock" && u.LockId == r.LockId) {
+				excused = true // an unlock that may have released it, or another request bearing the LockId (re-lock / update)
+			}
+		}
+		if excused {
+			continue
+		}
+		k := cur[fmt.Sprintf("%d/%x", r.Op.Db, r.Key)]
+		held := false
+		if k != nil {
+			for _, h := range k.Holders {
+				if h.Id == r.LockId {
+					held = true
+				}
+			}
+		}
+		if !held {
+			return &aViolation{"C01,C03", fmt.Sprintf("request #%d (%s) was answered SUCCED but its key's lock table does not contain the hold (nothing sent since could have released it)", r.Idx, r.Op.String())}
+		}
+	}
+	return nil
+}
+
+func bQuiescentQueues(e *aEnv, cur bSnap) *aViolation {
 	left := map[string]bool{} // keys on which a queued request left by TIMEOUT / cancel (known finding tolerance)
 	for _, r := range e.reqs {
 		if r.Op.K == "lock" && r.Terminal >= 0 {
@@ -733,7 +792,7 @@ func bProp(test, prop string) func(t *rapid.T) {
 				c.Stall = 1
 			}
 		}
-		if prop != "C10" && (pct(t, "recycleScenario") < 10 || os.Getenv("VERIF_B_SCENARIO") == "recycle") {
+		if prop != "C10" && (pct(t, "recycleScenario") < 10 || os.Getenv("VERIF_B_SCENARIO") == "recycle" || os.Getenv("VERIF_B_SCENARIO") == "orphan") {
 			// key-manager recycling under a stalled request: a request for key 0 is between its manager look-up and
 			// the shard mutex while key 0's last hold ends, a sweep recycles its manager and key 1 (unused so far)
 			// gets that manager; the stalled request must then start over, not act on key 1's state
@@ -741,8 +800,28 @@ func bProp(test, prop string) func(t *rapid.T) {
 			*(&fresh)++
 			idH, idX := 200+fresh, 300+fresh
 			c.Prefix.Ops = []aOp{{K: "lock", C: 0, Key: 0, Id: idH, Cnt: 0, E: 30}}
+			// "orphan" variant (a quarter of the scenario cases): overflow-map manager, stalled LOCK, the removed manager is
+			// not handed out again before the stalled request continues, key 0 is locked again by others meanwhile
+			orphan := pct(t, "recycleOrphan") < 25 || os.Getenv("VERIF_B_SCENARIO") == "orphan"
+			ovf := pct(t, "recycleOverflow") % 4
+			if orphan {
+				ovf = 1 + ovf%2
+			}
+			switch ovf {
+			case 1:
+				// key 0's manager lives in the overflow map of the key table: another key owns the (only) fast slot
+				c.Prefix.FastKeys = 1
+				c.Prefix.Ops = []aOp{{K: "lock", C: 0, Key: 40, Id: idH + 7000, Cnt: 0, E: 30}, {K: "lock", C: 0, Key: 0, Id: idH, Cnt: 0, E: 30}}
+			case 2:
+				// ... or its hold is filed in the long expiry table at once (the manager is moved to the overflow map)
+				c.Prefix.Ops = []aOp{{K: "lock", C: 0, Key: 0, Id: idH, Cnt: 0, E: 30, EF: 0x0100}}
+			}
 			stalled := aOp{K: "unlock", C: 0, Key: 0, Id: idX}
-			switch pct(t, "recycleStalled") % 3 {
+			st3 := pct(t, "recycleStalled") % 3
+			if orphan {
+				st3 = 2
+			}
+			switch st3 {
 			case 1:
 				stalled.F |= ufFIRST
 			case 2:
@@ -758,14 +837,18 @@ func bProp(test, prop string) func(t *rapid.T) {
 				stalled.Cnt = rapid.SampledFrom([]int{0, 1, 2, 0xffff}).Draw(t, "recycleStalledCount")
 			}
 			var run []aOp
-			for k := 1; k <= rapid.IntRange(8, 14).Draw(t, "recycleKeys"); k++ {
+			nRun := rapid.IntRange(8, 14).Draw(t, "recycleKeys")
+			if pct(t, "recycleShortRun") < 35 || orphan {
+				nRun = rapid.IntRange(0, 3).Draw(t, "recycleKeysShort") // the removed manager is still in the free ring, not handed out again
+			}
+			for k := 1; k <= nRun; k++ {
 				run = append(run, aOp{K: "lock", C: 3, Key: k, Id: runId(k), Cnt: runCnt, E: 30})
 			}
-			if pct(t, "recycleOrdered") < 50 {
+			if pct(t, "recycleOrdered") < 50 || orphan {
 				// one thread ends the hold, lets the sweep remove the key's manager and then locks the fresh keys
 				ops := []aOp{{K: "unlock", C: 3, Key: 0, Id: idH}, {K: "tick", N: rapid.IntRange(1, 3).Draw(t, "recycleSweep")}}
 				ops = append(ops, run...)
-				if pct(t, "recycleRefill") < 50 {
+				if pct(t, "recycleRefill") < 50 || orphan {
 					// key 0 is taken again by others through its new manager before the stalled request continues
 					ops = append(ops, aOp{K: "lock", C: 3, Key: 0, Id: idX + 4000, Cnt: stalled.Cnt, E: 30})
 				}
@@ -778,7 +861,7 @@ func bProp(test, prop string) func(t *rapid.T) {
 					{Ops: run},
 				}
 			}
-			if pct(t, "recycleStall") < 75 {
+			if pct(t, "recycleStall") < 75 || orphan {
 				c.Stall = 1
 			}
 			if pct(t, "recycleExtra") < 50 {
